@@ -1673,6 +1673,117 @@ Proof.
     + apply beq_bytes_sym_false. exact Eac.
 Qed.
 
+(* create, then a flag change: created with the new flag *)
+Lemma cell_create_none s t b c :
+  userordered sch (dd_sid s) = false -> wf_node sch c = true -> kind_of sch (dd_sid s) = KLeaf ->
+  Sp sch None t None (Some b) -> Sp sch None s (Some b) (Some c) ->
+  dd_op t = Some OpCreate -> dd_op s = Some OpNone -> CellOut None (Some c) s t.
+Proof.
+  intros Huo Wc Hk Ht Hs Opt Ops l1 l2 Hl1.
+  destruct (sp_ids _ _ _ _ Ht) as [i [Tid [_ Tjb]]]. destruct (sp_ids _ _ _ _ Hs) as [i' [Sid0 [Sjb Sjc]]].
+  assert (i' = i) by (pose proof (Tjb b eq_refl); pose proof (Sjb b eq_refl); congruence). subst i'.
+  destruct (sp_inv_ss _ _ _ _ Hs) as [[i2 S]|[[i2 S]|[i2 [chc S]]]];
+    [destruct S as [Se _]; rewrite Ops in Se; discriminate| |
+     destruct S as [_ [St _]]; rewrite is_term_kind_of, Hk in St; discriminate].
+  destruct S as [Se [St [Sid [Sb [Sod [Sch [Sany [Sreal Sc]]]]]]]].
+  assert (i2 = i) by congruence. subst i2.
+  inversion Ht as [| inh0 d0 b0 i0 He Hb Hdd Hwf | | |]; subst.
+  assert (Esb : d_sid b = dd_sid s) by (rewrite <- (inst_id_sid sch _ _ Sb), (dd_sid_of_id _ _ Sid); reflexivity).
+  destruct b as [sb vb db mb chb]. pose proof (wf_node_inv sch _ _ _ _ _ Hwf) as W.
+  pose proof (wn_meta _ _ _ _ _ _ W) as Em. pose proof (wn_kind _ _ _ _ _ _ W) as Wk. cbn [d_sid] in Esb. subst sb.
+  rewrite Hk in Wk. destruct Wk as [Ech _]. subst mb chb.
+  rewrite Opt in Hdd. rewrite lift_unfold in Hdd. cbn [map forallb dd_set_op] in Hdd. rewrite Bool.andb_true_r in Hdd. subst t.
+  destruct s as [ss' vs fs ops ods ovs chs].
+  cbn [dd_op dd_sid dd_val dd_dflt dd_oval dd_odflt dd_ch d_val d_dflt d_sid] in *. subst ops chs ods.
+  rewrite Tid in Hl1.
+  rewrite (merge_r_found None (DD ss' vs fs (Some OpNone) (Some db) ovs []) None l1
+                         (DD ss' vb db (Some OpCreate) None None []) l2 i OpNone OpCreate
+                         Huo eq_refl Sid Tid Hl1 eq_refl).
+  unfold merge_none, dd_is_term, dd_merge_dflt_flag. cbn [dd_sid dd_dflt]. rewrite St.
+  cbn [dd_sid dd_val dd_dflt dd_op dd_oval dd_odflt dd_ch dd_set_op dd_set_val dd_set_dflt dd_set_oval dd_set_ch merge_children].
+  unfold is_redundant. cbn [dd_op eff_op].
+  eexists. eexists. split; [reflexivity|]. right. eexists. split; [reflexivity|]. split; [apply (leaf_dd_id ss'); exact Hk|].
+  cbn [set_val set_dflt] in *.
+  apply (Sp_create sch None (DD ss' vb fs (Some OpCreate) None None []) (DN ss' vb fs [] []) i).
+  - reflexivity.
+  - apply Sjc. reflexivity.
+  - rewrite lift_unfold. cbn [map forallb dd_set_op dd_op]. rewrite Bool.andb_true_r. reflexivity.
+  - exact Wc.
+Qed.
+
+(* replace, then a flag change: replace with the new flag *)
+Lemma cell_replace_none s t a b c :
+  userordered sch (dd_sid s) = false ->
+  Sp sch None t (Some a) (Some b) -> Sp sch None s (Some b) (Some c) ->
+  dd_op t = Some OpReplace -> dd_op s = Some OpNone -> CellOut (Some a) (Some c) s t.
+Proof.
+  intros Huo Ht Hs Opt Ops l1 l2 Hl1.
+  destruct (sp_ids _ _ _ _ Ht) as [i [Tid0 [_ Tjb]]]. destruct (sp_ids _ _ _ _ Hs) as [i' [Sid0 [Sjb _]]].
+  assert (i' = i) by (pose proof (Tjb b eq_refl); pose proof (Sjb b eq_refl); congruence). subst i'.
+  destruct (sp_inv_ss _ _ _ _ Ht) as [[i1 T]|[[i1 T]|[i1 [chb T]]]];
+    [|destruct T as [Te _]; rewrite Opt in Te; discriminate|destruct T as [Te _]; rewrite Opt in Te; discriminate].
+  destruct T as [Te [Tk [Tid [Ta [Tsid [Tne [Tov [Tod [Tch Tb]]]]]]]]].
+  assert (i1 = i) by congruence. subst i1.
+  assert (Ess : dd_sid s = dd_sid t) by (rewrite <- (dd_sid_of_id _ _ Sid0), <- (dd_sid_of_id _ _ Tid0); reflexivity).
+  destruct (sp_inv_ss _ _ _ _ Hs) as [[i2 S]|[[i2 S]|[i2 [chc S]]]];
+    [destruct S as [Se _]; rewrite Ops in Se; discriminate| |
+     destruct S as [_ [St _]]; rewrite Ess, is_term_kind_of, Tk in St; discriminate].
+  destruct S as [Se [St [Sid [Sb [Sod [Sch [Sany [Sreal Sc]]]]]]]].
+  assert (i2 = i) by congruence. subst i2.
+  destruct t as [st vt ft opt odt ovt cht]. destruct s as [ss vs fs ops ods ovs chs].
+  cbn [dd_op dd_sid dd_val dd_dflt dd_oval dd_odflt dd_ch] in *. subst opt ops cht chs ovt odt ods ss.
+  rewrite Tid in Hl1.
+  rewrite (merge_r_found None (DD st vs fs (Some OpNone) (Some (d_dflt b)) ovs []) None l1
+                         (DD st vt ft (Some OpReplace) (Some (d_dflt a)) (Some (d_val a)) []) l2 i OpNone OpReplace
+                         Huo eq_refl Sid Tid Hl1 eq_refl).
+  unfold merge_none, dd_is_term, dd_merge_dflt_flag. cbn [dd_sid dd_dflt]. rewrite St.
+  cbn [dd_sid dd_val dd_dflt dd_op dd_oval dd_odflt dd_ch dd_set_op dd_set_val dd_set_dflt dd_set_oval dd_set_ch merge_children].
+  unfold is_redundant. cbn [dd_op eff_op].
+  eexists. eexists. split; [reflexivity|]. right. eexists. split; [reflexivity|]. split; [apply (leaf_dd_id st); exact Tk|].
+  assert (Ec : c = set_dflt (set_val a vt) fs) by (rewrite Sc, Tb; destruct a; reflexivity).
+  rewrite Ec. apply (Sp_replace sch None (DD st vt fs (Some OpReplace) (Some (d_dflt a)) (Some (d_val a)) []) a i);
+    cbn [dd_op dd_sid dd_val dd_dflt dd_oval dd_odflt dd_ch]; try reflexivity; try assumption.
+Qed.
+
+(* replace, then delete: the original leaf is deleted *)
+Lemma cell_replace_delete s t a b :
+  userordered sch (dd_sid s) = false -> wf_node sch a = true ->
+  Sp sch None t (Some a) (Some b) -> Sp sch None s (Some b) None ->
+  dd_op t = Some OpReplace -> dd_op s = Some OpDelete -> CellOut (Some a) None s t.
+Proof.
+  intros Huo Wa Ht Hs Opt Ops l1 l2 Hl1.
+  destruct (sp_ids _ _ _ _ Ht) as [i [Tid0 [_ Tjb]]]. destruct (sp_ids _ _ _ _ Hs) as [i' [Sid0 [Sjb _]]].
+  assert (i' = i) by (pose proof (Tjb b eq_refl); pose proof (Sjb b eq_refl); congruence). subst i'.
+  destruct (sp_inv_ss _ _ _ _ Ht) as [[i1 T]|[[i1 T]|[i1 [chb T]]]];
+    [|destruct T as [Te _]; rewrite Opt in Te; discriminate|destruct T as [Te _]; rewrite Opt in Te; discriminate].
+  destruct T as [Te [Tk [Tid [Ta [Tsid [Tne [Tov [Tod [Tch Tb]]]]]]]]].
+  assert (i1 = i) by congruence. subst i1.
+  inversion Hs as [inh0 d0 b0 i0 He Hb Hdd Hwb | | | |]; subst.
+  destruct a as [sa va da ma cha]. pose proof (wf_node_inv sch _ _ _ _ _ Wa) as W.
+  pose proof (wn_meta _ _ _ _ _ _ W) as Em. pose proof (wn_kind _ _ _ _ _ _ W) as Wk. cbn [d_sid] in Tsid. subst sa.
+  rewrite Tk in Wk. destruct Wk as [Ech _]. subst ma cha.
+  destruct t as [st vt ft opt odt ovt cht].
+  cbn [dd_op dd_sid dd_val dd_dflt dd_oval dd_odflt dd_ch d_val d_dflt d_sid set_val set_dflt] in *. subst opt cht ovt odt.
+  rewrite Ops in Hdd. rewrite lift_unfold in Hdd. cbn [map forallb dd_set_op] in Hdd. rewrite Bool.andb_true_r in Hdd. subst s.
+  cbn [dd_sid] in *.
+  rewrite Tid in Hl1.
+  rewrite (merge_r_found None (DD st vt ft (Some OpDelete) None None []) None l1
+                         (DD st vt ft (Some OpReplace) (Some da) (Some va) []) l2 i OpDelete OpReplace
+                         Huo eq_refl Sid0 Tid Hl1 eq_refl).
+  unfold merge_delete, dd_is_term, dd_change_term.
+  cbn [dd_sid dd_val dd_dflt dd_op dd_oval dd_odflt dd_ch dd_set_op dd_set_val dd_set_dflt dd_set_oval dd_set_odflt].
+  rewrite beq_bytes_refl', Bool.andb_false_r, Tk, (beq_bytes_sym_false _ _ Tne).
+  cbn [dd_sid dd_val dd_dflt dd_op dd_oval dd_odflt dd_ch dd_set_op dd_set_val dd_set_dflt dd_set_oval dd_set_odflt dd_set_ch
+       set_ops_nokeys merge_children].
+  unfold is_redundant. cbn [dd_op eff_op].
+  eexists. eexists. split; [reflexivity|]. right. eexists. split; [reflexivity|]. split; [apply (leaf_dd_id st); exact Tk|].
+  apply (Sp_delete sch None (DD st va da (Some OpDelete) None None []) (DN st va da [] []) i).
+  - reflexivity.
+  - exact Ta.
+  - rewrite lift_unfold. cbn [map forallb dd_set_op dd_op]. rewrite Bool.andb_true_r. reflexivity.
+  - exact Wa.
+Qed.
+
 Lemma sp_op_replace d oa ob : Sp sch None d oa ob -> dd_op d = Some OpReplace -> exists a b, oa = Some a /\ ob = Some b.
 Proof. intros H Ho. destruct H as [? ? ? ? He|? ? ? ? He|? ? ? ? He|? ? ? ? He|? ? ? ? ? He]; rewrite Ho in He; try discriminate. eauto. Qed.
 Lemma sp_op_create d oa ob : Sp sch None d oa ob -> dd_op d = Some OpCreate -> oa = None /\ exists b, ob = Some b.
@@ -1680,14 +1791,19 @@ Proof. intros H Ho. destruct H as [? ? ? ? He|? ? ? ? He|? ? ? ? He|? ? ? ? He|?
 Lemma sp_op_delete d oa ob : Sp sch None d oa ob -> dd_op d = Some OpDelete -> ob = None /\ exists a, oa = Some a.
 Proof. intros H Ho. destruct H as [? ? ? ? He|? ? ? ? He|? ? ? ? He|? ? ? ? He|? ? ? ? ? He]; rewrite Ho in He; try discriminate. eauto. Qed.
 
-(* the leaf cells in which a met root is replaced in place *)
+Lemma sp_op_none d oa ob : Sp sch None d oa ob -> dd_op d = Some OpNone -> exists a b, oa = Some a /\ ob = Some b.
+Proof. intros H Ho. destruct H as [? ? ? ? He|? ? ? ? He|? ? ? ? He|? ? ? ? He|? ? ? ? ? He]; rewrite Ho in He; try discriminate; eauto. Qed.
+
+(* the leaf cells in which a met root is replaced in place: (operation in diff(A,B), operation in diff(B,C)) *)
 Definition leaf_cell (s t : dd) : Prop :=
   kind_of sch (dd_sid s) = KLeaf /\
   ((dd_op t = Some OpReplace /\ dd_op s = Some OpReplace) \/ (dd_op t = Some OpCreate /\ dd_op s = Some OpReplace) \/
-   (dd_op t = Some OpDelete /\ dd_op s = Some OpCreate)).
+   (dd_op t = Some OpDelete /\ dd_op s = Some OpCreate) \/ (dd_op t = Some OpCreate /\ dd_op s = Some OpNone) \/
+   (dd_op t = Some OpReplace /\ dd_op s = Some OpNone) \/ (dd_op t = Some OpReplace /\ dd_op s = Some OpDelete)).
 
 (* C13, composition: every root of diff(B,C) meets no root of diff(A,B), or undoes the one it meets, or the two are
-   operations on a leaf in one of the cells replace + replace, create + replace, delete + create *)
+   operations on a leaf in one of the cells replace + replace, create + replace, delete + create, create + none,
+   replace + none, replace + delete *)
 Theorem merge_apply_cells fa fb fc d1 d2 :
   mdflt = false ->
   wfb sch fa = true -> wfb sch fb = true -> wfb sch fc = true ->
@@ -1758,7 +1874,7 @@ Proof.
       * exact Sp1.
       * exact Hl1.
       * exists (l1 ++ l2), sg. split; [exact E|]. left. split; [reflexivity|]. exists j. split; [exact Hj1|symmetry; exact Efc].
-    + apply Hcell. rewrite Eop in Hcells. destruct Hcells as [[Ot Os]|[[Ot Os]|[Ot Os]]].
+    + apply Hcell. rewrite Eop in Hcells. destruct Hcells as [[Ot Os]|[[Ot Os]|[[Ot Os]|[[Ot Os]|[[Ot Os]|[Ot Os]]]]]].
       * destruct (sp_op_replace _ _ _ Sp1 Ot) as [a [b [Ea Eb]]]. destruct (sp_op_replace _ _ _ Sp2 Os) as [b' [c [Eb' Ec]]].
         rewrite Ea, Ec. rewrite Ea, Eb in Sp1. rewrite Eb, Ec in Sp2. apply (cell_replace_replace _ _ a b c); assumption.
       * destruct (sp_op_create _ _ _ Sp1 Ot) as [Ea [b Eb]]. destruct (sp_op_replace _ _ _ Sp2 Os) as [b' [c [Eb' Ec]]].
@@ -1766,6 +1882,14 @@ Proof.
         apply (wfb_forall _ Hc). apply (find_match_true_inv sch fc j c Ec).
       * destruct (sp_op_delete _ _ _ Sp1 Ot) as [Eb [a Ea]]. destruct (sp_op_create _ _ _ Sp2 Os) as [Eb' [c Ec]].
         rewrite Ea, Ec. rewrite Ea, Eb in Sp1. rewrite Eb, Ec in Sp2. apply (cell_delete_create _ _ a c); assumption.
+      * destruct (sp_op_create _ _ _ Sp1 Ot) as [Ea [b Eb]]. destruct (sp_op_none _ _ _ Sp2 Os) as [b' [c [Eb' Ec]]].
+        rewrite Ea, Ec. rewrite Ea, Eb in Sp1. rewrite Eb, Ec in Sp2. apply (cell_create_none _ _ b c); try assumption.
+        apply (wfb_forall _ Hc). apply (find_match_true_inv sch fc j c Ec).
+      * destruct (sp_op_replace _ _ _ Sp1 Ot) as [a [b [Ea Eb]]]. destruct (sp_op_none _ _ _ Sp2 Os) as [b' [c [Eb' Ec]]].
+        rewrite Ea, Ec. rewrite Ea, Eb in Sp1. rewrite Eb, Ec in Sp2. apply (cell_replace_none _ _ a b c); assumption.
+      * destruct (sp_op_replace _ _ _ Sp1 Ot) as [a [b [Ea Eb]]]. destruct (sp_op_delete _ _ _ Sp2 Os) as [Ec [b' Eb']].
+        rewrite Ea, Ec. rewrite Ea, Eb in Sp1. rewrite Eb, Ec in Sp2. apply (cell_replace_delete _ _ a b); try assumption.
+        apply (wfb_forall _ Ha). apply (find_match_true_inv sch fa j a Ea).
   - exists m. split; [unfold merge; rewrite Eds1, Eds2; exact Em|].
     apply (apply_level_sp sch m fa fc); [|apply (ws_sibs _ _ Wa)|apply wf_allsome, (ws_nodes _ _ Wa)|apply (ws_sibs _ _ Wc)].
     apply level_build; try assumption; try (apply wf_allsome; apply ws_nodes; assumption).
